@@ -44,6 +44,8 @@ def run(tier):
             expand.run(chk, 'C08.xpand', prog, p, cfgname)
             expand.moved_block_extent_rule(chk, 'C08.xpand', prog, p, cfgname)
             expand.usable_size_rule(chk, 'C08.xpand', prog, p, cfgname)
+            expand.growth_progress_rule(chk, 'C08.xpand', prog, p, cfgname)
+            expand.rollback_mark_rule(chk, 'C08.xpand', prog, p, cfgname)
         chk.clause('C08.query', 'R3 oracle group `query` (lwork = -1) of ?gssvx / ?gsisx (D3)')
         nl = 0
         for p in _drv.PRECS:
